@@ -986,7 +986,8 @@ class DynGraph(nx.Graph):
                 G.add_interaction(it[0], it[1], t=t[0], e=t[1] + 1)
 
         G.graph = deepcopy(self.graph)
-        G._node = deepcopy(self._node)
+        # attribute dicts are deep-copied; the node ids themselves are the same objects as in the adjacency
+        G._node = {n: deepcopy(d) for n, d in self._node.items()}
         return G
 
     def stream_interactions(self):
